@@ -702,6 +702,20 @@ func (s *Subtitles) removeUnusedRegionsAndStyles() {
 		}
 	}
 
+	// A used style needs its parent styles as well
+	var inheritedStyles = make(map[string]bool)
+	for _, style := range s.Styles {
+		if _, ok := usedStyles[style.ID]; !ok {
+			continue
+		}
+		for parent := style.Style; parent != nil && !inheritedStyles[parent.ID]; parent = parent.Style {
+			inheritedStyles[parent.ID] = true
+		}
+	}
+	for id := range inheritedStyles {
+		usedStyles[id] = true
+	}
+
 	// Loop through style
 	for id, style := range s.Styles {
 		if _, ok := usedStyles[style.ID]; !ok {
